@@ -75,6 +75,49 @@ claim("C07",
       "unreachable use as disable_field is established by the oracle only.",
       "Lean 4 proof (state-machine invariants by induction over operation sequences) + binding-map-vs-create oracle")
 
+CSS_TRUST = ("Trusted: Lean kernel; axioms ⊆ {propext, Classical.choice, Quot.sound}; extractor of the separator table and writer shape; cssparser 0.34's tokenizer and "
+             "per-token serializer (the model works on its token tree); differential tie of GE/Model/Css.lean (token streams of both outputs, warnings, source-map "
+             "positions and names); the independent oracle checklib/cssoracle.py. ")
+
+claim("C08",
+      "PARTIAL proof. Lean 4 theorem rule_rewrite_exact (by structural recursion over the token tree, any nesting depth): for a style rule the written token kinds, brackets "
+      "included, are exactly the input's — nothing merged, split, dropped, duplicated or reordered — whitespace and comments aside; model tied to the implementation "
+      "token-by-token. Which whitespace survives (descendant combinators, calc +/-) and spelling-sensitive values are judged by the oracle retokenise(output) == "
+      "expected_rewrite(tokenise(input)).",
+      CSS_TRUST + "At-rule dispatch and whitespace retention are covered by correspondence + oracle only.",
+      "Lean 4 proof (partial: token-kind preservation per rule) + model/implementation token-stream correspondence + re-tokenisation oracle")
+claim("C09",
+      "PARTIAL proof. Lean 4 theorems rule_rewrite_exact / convCls_wrote / convRpx_wrote: every identifier of a rule is written exactly once, in order, and is replaced by "
+      "<prefix>--<name> exactly when it immediately follows `.` in selector context (any depth of selector functions and prelude blocks), never in value context; "
+      "no_prefix_no_change, class_prefixed_once. Oracle: set of rewritten identifiers == identifiers after `.` in selector context; sign comments exactly there.",
+      CSS_TRUST + "That every nested rule reaches the rule function (at-rule dispatch) is covered by correspondence + oracle only.",
+      "Lean 4 proof (identifier-rewrite exactness by structural recursion over token trees) + correspondence + oracle")
+claim("C10",
+      "PARTIAL proof. Lean 4 (Mathlib, ordered field) theorem rpx_error_bound: value*100/ratio computed with two roundings of relative error ≤ ε is within (2ε+ε²)|exact| and "
+      "keeps the sign; the model's executable Float32 conversion and integer test agree with the implementation on every generated number (bit patterns compared); "
+      "oracle: rpx and non-integers within f32 rounding, integers exact, no other unit converted.",
+      CSS_TRUST + "IEEE-754 single-precision arithmetic (Lean Float32 = Rust f32) is trusted; decimal printing is outside the model (oracle only).",
+      "Lean 4 proof (error bound over an ordered field, rounding as a parameter) + bit-exact correspondence of the conversion + numeric oracle")
+claim("C17",
+      "PARTIAL proof. Lean 4 theorems about one rule: host_rule_moves (a pure :host{} writes nothing to the normal output, no warning, and exactly chain…{ selector { "
+      "block } }… with balanced braces to the low output, the block transformed by the ordinary declaration function), host_combination_dropped (neither output changes, "
+      "one warning), host_off_generic / not_host_generic / generic_keeps_low (everything else is the generic rule and never touches the low output). Oracle: each "
+      "input rule appears exactly once over both outputs, order kept.",
+      CSS_TRUST + "The rule loop (every rule visited once, in order) is covered by correspondence + oracle only.",
+      "Lean 4 proof (per-rule partition theorems) + correspondence on both outputs + partition oracle")
+claim("C18",
+      "PARTIAL proof. Lean 4 theorems decode_encode (percent-decoding the placeholder of any byte string returns it), encoded_alphabet and encoded_has_no_comment_end "
+      "(the encoded path cannot end the comment); the unreserved-byte table is the model's and agrees with urlencoding on all 256 bytes via correspondence. Oracle: "
+      "placeholder position, recoverable path, equivalent @layer/@supports/@media wrappers, late-import warning, pass-through without a sign.",
+      CSS_TRUST + "Wrapper construction (importRule) is covered by correspondence + oracle only.",
+      "Lean 4 proof (encode/decode round trip for all byte strings) + correspondence + oracle")
+claim("C19",
+      "PARTIAL proof. Lean 4 theorems about the output writer model: utf16_len_invariant and dst_col_exact (the generated column recorded for a token is the UTF-16 length of "
+      "everything written before it, for every write sequence), entries_nondecreasing; output_shape_ok re-checks each run that StylesheetOutputWriter still has the "
+      "modelled shape. Source positions and names of every entry are compared model vs implementation; oracle re-tokenises source and output at each entry.",
+      CSS_TRUST + "The sourcemap crate's VLQ/JSON encoding is trusted (oracle round-trips it).",
+      "Lean 4 proof (column invariant by induction over writes) + per-entry correspondence + re-tokenisation oracle")
+
 claim("C02",
       "PARTIAL proof. Lean 4 theorems: every allocated identifier is an IdentifierName, never a reserved word / relied-upon global, never a preserved A–Z name, and distinct "
       "counters give distinct names (tables VAR_NAME_* and the reserved list re-extracted from the source each run); every string literal decodes (C12); every value "
@@ -112,7 +155,7 @@ def main():
             guard="glass_easel_verif",
             enable="RUSTFLAGS='--cfg glass_easel_verif' (set in /verif/harness/.cargo/config.toml; the harness path-depends on /repo's crates)",
             baseline_off_cmd="cd /repo && cargo test --workspace --no-fail-fast --offline",
-            source_commits=["bbcb615"],
+            source_commits=["bbcb615", "d53265e", "7d9763f", "d283a3d", "b84591b"],
             add_only=True,
         ),
         engines=[dict(name="lean4-model-proof", path="/verif/lean",
